@@ -3,10 +3,17 @@
    primitives (only the 64-byte length of SHA-512 outputs is assumed), what the
    verifier releases is a prefix of one message in the key's honest history,
    whole message iff clean end — or the input exhibits a forged Ed25519
-   signature or a SHA-512 collision.  Only property theorems here. *)
+   signature or a SHA-512 collision.  Only property theorems here.
+   LOCATED BREAKS: every witness of the break disjunct lies in a finite list computed by a
+   fixed function from (the primitives, this input and the receiver's keys) or from (the
+   primitives, the honest history): a forged tag/signature is one of the pairs the receiver
+   actually checked on this input; a SHA-512 collision is between one string the receiver
+   hashed while processing this input and one string the honest party hashed while producing
+   its history.  (An unrestricted "exists x <> y with equal hashes" is true of real SHA-512 by
+   pigeonhole and would make the disjunction empty of content.) *)
 From Coq Require Import List NArith ZArith.
 From Coq.Strings Require Import Byte.
-From SP Require Import Bytes Params Msgpack Crypto Errors Packets Chunker Rand Sign Verify SignProofs SignAuthProofs.
+From SP Require Import Bytes Params Msgpack Crypto Errors Packets Chunker Rand Sign Verify SignProofs SignAuthProofs SignAuthLocated.
 Import ListNotations.
 Open Scope N_scope.
 
@@ -24,8 +31,8 @@ Theorem C06_authentic (vd : validator) (kr : sigring) (input : bytes) (pk : byte
       In (EvAttached v nonce ps) L /\
       list_prefix (so_chunks out) (map fst ps) /\
       (so_end out = EOF -> so_chunks out = map fst ps))
-  \/ CryptoBreak c pk L.
-Proof. exact (attached_authentic c Hsha vd kr input pk out L). Qed.
+  \/ AttBreak c vd pk L input.
+Proof. exact (attached_authentic_located c Hsha vd kr input pk out L). Qed.
 
 Theorem C06_all_at_once (vd : validator) (kr : sigring) (input : bytes) (pk msg : bytes)
         (L : list (sign_event)) :
@@ -33,8 +40,8 @@ Theorem C06_all_at_once (vd : validator) (kr : sigring) (input : bytes) (pk msg 
   N.of_nat (length input) < 18446744073709551616 -> len pk < 4294967296 ->
   verify_all c vd kr input = Ok (pk, msg) ->
   (exists v nonce ps, In (EvAttached v nonce ps) L /\ msg = concat (map fst ps))
-  \/ CryptoBreak c pk L.
-Proof. exact (attached_authentic_all c Hsha vd kr input pk msg L). Qed.
+  \/ AttBreak c vd pk L input.
+Proof. exact (attached_authentic_all_located c Hsha vd kr input pk msg L). Qed.
 End C06.
 
 Print Assumptions C06_authentic.
